@@ -235,6 +235,10 @@ func (e *Engine) indexAddr(st *State, fr *Frame, x *ssa.IndexAddr) Val {
 	switch b := e.get(st, fr, x.X).(type) {
 	case SliceV:
 		e.oblige(st, tb.Cmp("bvult", idx, b.Len), "index-out-of-range", x.Pos(), srcText(e.prog, x))
+		if e.cfg.Stubs["concidx"] && !idx.IsConst() {
+			// case-split small symbolic indices (keeps later index arithmetic concrete)
+			idx = tb.BV(e.concretize(st, idx), 64)
+		}
 		if b.Obj == 0 {
 			panic(pathDead{"index of nil slice"})
 		}
@@ -307,6 +311,30 @@ func (e *Engine) slice(st *State, fr *Frame, x *ssa.Slice) Val {
 		mx = e.toIndex(e.get(st, fr, x.Max), x.Max.Type())
 	}
 	txt := srcText(e.prog, x)
+	if e.cfg.Stubs["concidx"] {
+		if _, isStr := e.get(st, fr, x.X).(StrV); !isStr {
+			// bounds obligations first (on the symbolic terms), then case-split
+			if sv, ok := e.get(st, fr, x.X).(SliceV); ok {
+				l0, h0, m0 := lo, hi, mx
+				if l0 == nil {
+					l0 = tb.BV(0, 64)
+				}
+				if h0 == nil {
+					h0 = sv.Len
+				}
+				if m0 == nil {
+					m0 = sv.Cap
+				}
+				e.oblige(st, tb.AndN(tb.Cmp("bvule", l0, h0), tb.Cmp("bvule", h0, m0), tb.Cmp("bvule", m0, sv.Cap)), "slice-bounds-out-of-range", x.Pos(), txt)
+				if lo != nil && !lo.IsConst() {
+					lo = tb.BV(e.concretize(st, lo), 64)
+				}
+				if hi != nil && !hi.IsConst() {
+					hi = tb.BV(e.concretize(st, hi), 64)
+				}
+			}
+		}
+	}
 	switch b := e.get(st, fr, x.X).(type) {
 	case StrV:
 		n := strLen(b)
